@@ -79,6 +79,13 @@ pub struct Parsed {
 }
 
 pub fn parse_report(rep: &str, tb: &Tables) -> Parsed {
+    parse_report_names(rep, tb, &[])
+}
+
+/// `names`: the file names of the findings that were rendered. Outside list entries a file name is just text (a
+/// layout may repeat it in a sub-heading or a table): it is blanked before totals and severity headings are looked
+/// for, so that a file called `Total Optimizations 9.sol` or `## High Risk.sol` cannot be mistaken for one
+pub fn parse_report_names(rep: &str, tb: &Tables, names: &[String]) -> Parsed {
     let mut p = Parsed::default();
     let mut masked = vec![false; rep.len()];
     for (pat, text) in &tb.section {
@@ -120,6 +127,19 @@ pub fn parse_report(rep: &str, tb: &Tables) -> Parsed {
                 }
             }
         }
+        let blanked: String;
+        let l = if names.iter().any(|n| !n.is_empty() && l.contains(n.as_str())) {
+            let mut t = l.to_string();
+            let mut sorted: Vec<&String> = names.iter().filter(|n| !n.is_empty()).collect();
+            sorted.sort_by_key(|n| std::cmp::Reverse(n.len()));
+            for n in sorted {
+                t = t.replace(n.as_str(), "_");
+            }
+            blanked = t;
+            blanked.as_str()
+        } else {
+            l
+        };
         // totals
         if let Some(i) = l.find("Total") {
             let words: Vec<&str> = l[i..].split(|c: char| !c.is_alphanumeric()).filter(|w| !w.is_empty()).collect();
@@ -186,7 +206,8 @@ fn describe_maps(m: &Maps, tb: &Tables) -> String {
 
 /// C11 + C12 oracles on one rendered report text.  `which` selects the oracle family.
 fn check_report(rep: &str, m: &Maps, tb: &Tables, via: &str, c11: bool, out: &mut Vec<Violation>) {
-    let p = parse_report(rep, tb);
+    let names: Vec<String> = m.v.iter().chain(m.o.iter()).chain(m.q.iter()).flat_map(|(_, fs)| fs.iter().map(|(n, _)| n.clone())).collect();
+    let p = parse_report_names(rep, tb, &names);
     let mut want: BTreeMap<Pat, Vec<(String, i64)>> = BTreeMap::new();
     want.extend(expected_multiset(&m.v, Pat::V));
     want.extend(expected_multiset(&m.o, Pat::O));
